@@ -221,3 +221,31 @@ pub fn precompile_spec(spec: u8) -> String {
     let spec_id = SpecId::try_from_u8(spec).expect("spec id");
     format!("{:?}", revm::precompile::PrecompileSpecId::from_spec_id(spec_id))
 }
+
+// ---------------------------------------------------------------- static flag handed to child frames
+pub fn call_flag(op: &str, parent_static: bool) -> String {
+    use revm::interpreter::instructions::contract;
+    use revm::interpreter::InterpreterAction;
+    use revm::primitives::LatestSpec;
+    let mut host = DummyHost::new(Env::default());
+    let mut it = Interpreter::new(Contract::default(), 1_000_000, parent_static);
+    let eof = matches!(op, "extcall" | "extdelegatecall" | "extstaticcall");
+    it.is_eof = eof;
+    for _ in 0..8 {
+        it.stack.push(U256::ZERO).unwrap();
+    }
+    match op {
+        "call" => contract::call::<DummyHost, LatestSpec>(&mut it, &mut host),
+        "call_code" => contract::call_code::<DummyHost, LatestSpec>(&mut it, &mut host),
+        "delegate_call" => contract::delegate_call::<DummyHost, LatestSpec>(&mut it, &mut host),
+        "static_call" => contract::static_call::<DummyHost, LatestSpec>(&mut it, &mut host),
+        "extcall" => contract::extcall::<DummyHost, LatestSpec>(&mut it, &mut host),
+        "extdelegatecall" => contract::extdelegatecall::<DummyHost, LatestSpec>(&mut it, &mut host),
+        "extstaticcall" => contract::extstaticcall::<DummyHost>(&mut it, &mut host),
+        _ => panic!("unknown op"),
+    }
+    match &it.next_action {
+        InterpreterAction::Call { inputs } => format!("child_static={}", inputs.is_static),
+        _ => format!("no call scheduled: {:?}", it.instruction_result),
+    }
+}
